@@ -153,6 +153,7 @@ class Driver:
             for f in c["ctors"]:
                 self.ctor_eids[f["eid"]] = f
         self.anc = {q: self.ancestors(q) for q in self.classes}
+        self.none_returns = 0
         self.size_eids = {f["eid"] for c in model["classes"] for f in c["methods"] if f.get("operator") == "len"}
         self.ctxkey = None
         self.pyclass = {}
@@ -442,9 +443,24 @@ class Driver:
         return {m["eid"] for _, m in best} or {f["eid"]}
 
     # ------------------------------------------------------------------ acceptability of one argument for one parameter
-    def coercible(self, K):
+    def coercible(self, K, a=None, depth=0):
+        """may a converting constructor of K take argument a?  (bool parameters take anything)"""
         c = self.classes.get(K)
-        return bool(c) and any(len(f["params"]) >= 1 and not f.get("explicit") for f in c["ctors"])
+        if not c:
+            return False
+        for f in c["ctors"]:
+            ps = f["params"]
+            if f.get("explicit") or not ps or any(p["default"] is None for p in ps[1:]):
+                continue
+            if a is None or depth > 0:
+                return True
+            t = ps[0]["type"]
+            if t["k"] == "obj":
+                if a.c in ("obj", "none") or self.coercible(t["cls"], a, depth + 1):
+                    return True
+            elif self.acc(a, t) != "no":
+                return True
+        return False
 
     def acc(self, a, t):
         k = t["k"]
@@ -500,12 +516,10 @@ class Driver:
                     if mode == "val" and a.t.cls != K:
                         return "maybe"
                     return "yes"
-                return "maybe" if self.coercible(K) else "no"
-            if c == "none":
-                return "maybe" if mode in ("ptr", "cptr") else "no"
-            if c == "junk":
-                return "no"
-            return "maybe" if self.coercible(K) else "no"
+                return "maybe" if self.coercible(K, a) else "no"
+            if c == "none" and mode in ("ptr", "cptr"):
+                return "maybe"
+            return "maybe" if self.coercible(K, a) else "no"
         raise KeyError(k)
 
     def logtok(self, a, t):
@@ -744,14 +758,15 @@ class Driver:
                     main.remove(e)
                     tol.append(e)
                     self.count("coercion_temporaries")
-            elif eid in self.size_eids and fns[0].get("operator") in ("[]", "[]c") and eid not in own_eids:
+            elif eid in self.size_eids and eid not in own_eids:
+                # size() is __len__: consulted by the sequence protocol before operator [] and by truth testing of an
+                # instance passed for a bool parameter
                 main.remove(e)
         kindsig = g["kind"] + ("-static" if fns[0].get("static") else "")
         argcats = ",".join([a.cat() for a in args] + [k_ + "=" + a.cat() for k_, a in sorted(kw.items())]) if not kw else \
             ",".join([a.cat() for a in args] + ["kw=" + a.cat() for _, a in sorted(kw.items())])
-        if none_rc is not None and exc is None and none_rc < (1 if res is None else 0):
-            # a wrapper handed out None (or dropped one) without owning the reference
-            self.bad(f"refcount:none-reference-lost:kind={kindsig}", call=callsig, delta=none_rc)
+        if none_rc is not None and exc is None and res is None:
+            self.none_returns += 1
         if pend and exc is None:
             why = "args=" + argcats
             for f_, st_, sl_ in sts:
@@ -1598,6 +1613,7 @@ class Driver:
         for g in reversed(others):
             if g["kind"] != "ctor":
                 self.make_call(g, "pos")
+        self.check_none_refs(others)
         # the end of the history: drop everything; exactly the library-owned instances stay alive
         while self.pool:
             self.drop(self.pool[-1], "final-drop")
@@ -1611,6 +1627,46 @@ class Driver:
         if gone:
             self.bad("library-instance-destroyed", iids=gone[:8])
         self.count("live_instances_at_end", len(self.live))
+
+    def check_none_refs(self, groups):
+        """a wrapper that hands out None without taking a reference makes the reference count of None sink by one per
+        call: call a few void functions 200 times in a tight loop and watch the count"""
+        done = 0
+        for g in groups:
+            if done >= 4:
+                break
+            if g["kind"] not in ("free", "method") or len(g["fns"]) != 1 or g["fns"][0]["ret"]["k"] != "void":
+                continue
+            f = g["fns"][0]
+            if (g["owner"] + "::" if g["owner"] else "", g["name"]) in self.missing:
+                continue
+            recv = None
+            if g["kind"] == "method" and not f.get("static"):
+                recv = self.receiver_for(g["owner"], need_nonconst=not f.get("const"))
+                if recv is None or self.resolve(g, recv) is not g:
+                    continue
+            args = [self.good_arg(p["type"]) for p in f["params"]]
+            if any(a is None for a in args):
+                continue
+            pn = self.py_names(g["name"], "method")[0]
+            fn = getattr(recv.w, pn) if recv is not None else getattr(self.pycls(g["owner"]) if g["owner"] else self.mod, pn)
+            pa = tuple(a.py() for a in args)
+            self.step(f"none-refcount loop {g['owner']}::{g['name']}")
+            try:
+                fn(*pa)
+            except Exception:
+                continue
+            r0 = sys.getrefcount(None)
+            for _ in range(200):
+                fn(*pa)
+            delta = sys.getrefcount(None) - r0
+            self.trace()
+            self.count("none_refcount_loops")
+            self.features.add("refcount:none-loop:" + g["kind"])
+            done += 1
+            if delta <= -100:
+                self.bad("refcount:none-reference-lost:kind=" + g["kind"] + ("-static" if f.get("static") else ""),
+                         function=f["qname"], calls=200, delta=delta)
 
     def do_copy(self):
         import copy
